@@ -35,9 +35,9 @@ class FloatV:
 
 
 class MatchObj:
-    """result of re.match with groups of determined extent"""
-    def __init__(self, ok, groups):
-        self.ok, self.groups = ok, groups
+    """a successful re.match / re.search result (always truthy)"""
+    def __init__(self, pat, subject):
+        self.pat, self.subject = pat, subject
 
 
 class Builtins:
@@ -194,6 +194,10 @@ class Builtins:
             yield ("val", x.n, st)
         elif isinstance(x, LRef):
             yield ("val", st.zh["L_n"][x.id], st)
+        elif E.is_text(x):
+            n = fresh("len", I)
+            E.facts.extend([n >= 0, (n == 0) == E.member(x, rx.EPS), (n == 1) == E.member(x, rx.ANY)])
+            yield ("val", n, st)
         elif isinstance(x, Obj) and x.cls is not None and hasattr(x.cls, "__len__"):
             f = inspect.getattr_static(x.cls, "__len__")
             yield from E.call_function(f, [x], {}, st, "len")
@@ -389,7 +393,7 @@ class Builtins:
             yield ("raise", Exc(TypeError), st); return
         if isinstance(s, (Obj, Pos, list, tuple, dict)):
             yield ("raise", Exc(TypeError), st); return
-        yield ("val", self.E.member(s, L), st)
+        yield ("val", Opt(z3.Not(self.E.member(s, L)), MatchObj(pat, s)), st)
 
     def b_re_search(self, st, pos, kw):
         pat, s = pos[0], pos[1]
@@ -401,7 +405,7 @@ class Builtins:
             raise Unsupported("regex %r: %s" % (pat, e))
         if s is None or self.E.is_int(s) or isinstance(s, (Obj, Pos, list, tuple, dict)):
             yield ("raise", Exc(TypeError), st); return
-        yield ("val", self.E.member(s, L), st)
+        yield ("val", Opt(z3.Not(self.E.member(s, L)), MatchObj(pat, s)), st)
 
     # ------------------------------------------------------------- methods of str / list
     def str_method(self, recv, name, pos, kw, st):
@@ -450,6 +454,13 @@ class Builtins:
                 raise Unsupported("startswith symbolic")
             L = z3.Concat(z3.Re(c), rx.ALL) if name == "startswith" else z3.Concat(rx.ALL, z3.Re(c))
             yield ("val", E.member(recv, L), st); return
+        if E.is_text(recv) and name == "find":
+            c = conc(pos[0])
+            if not isinstance(c, str) or len(c) != 1 or len(pos) != 1:
+                raise Unsupported("find with %r" % (pos,))
+            n = fresh("find", I)
+            E.facts.extend([n >= -1, (n == -1) == z3.Not(E.member(recv, z3.Concat(rx.ALL, z3.Re(c), rx.ALL)))])
+            yield ("val", n, st); return
         if self.E.is_int(recv) and name == "__lt__":
             o = pos[0]
             if E.is_int(o):
